@@ -29,11 +29,13 @@ Proof. unfold header_len. destruct (hv <? 1); auto. Qed.
 Lemma decode_header_len hv mr h len id : decode_header hv mr h = inl (len, id) -> 4 < len /\ len <= mr.
 Proof.
   unfold decode_header. intro H.
-  repeat (destruct h as [|? h]; try discriminate).
-  all: destruct ((_ <=? 4) || (_ <? _)) eqn:E; try discriminate;
-    apply orb_false_iff in E as [E1 E2]; apply Z.leb_gt in E1; apply Z.ltb_ge in E2.
-  all: repeat match type of H with context [if ?x then _ else _] => destruct x end; try discriminate;
-    injection H as <- <-; lia.
+  do 8 (destruct h as [|? h]; [discriminate|]).
+  destruct ((_ <=? 4) || (_ <? _)) eqn:E; try discriminate.
+  apply orb_false_iff in E as [E1 E2]; apply Z.leb_gt in E1; apply Z.ltb_ge in E2.
+  repeat match type of H with
+         | context [if ?x then _ else _] => destruct x
+         | context [match ?x with _ => _ end] => destruct x
+         end; try discriminate; injection H as <- <-; lia.
 Qed.
 
 Lemma serve_packet mr t p st buf d st' raw :
@@ -132,8 +134,8 @@ Qed.
 Lemma invowner_step c s ch s' : InvLock s -> InvOwner s -> step c s ch = Some s' -> InvOwner s'.
 Proof.
   intros IL [I1 I2 I3] H. unfold owners in *.
-  destruct (all_promises_step c s ch s' IL H) as [Eq | (k & cl & hv & -> & Hk & Hpc & Hck & Eq)]; rewrite Eq.
-  - split; auto.
+  destruct (all_promises_step c s ch s' IL H) as [Eq | (k & cl & hv & -> & Hk & Hpc & Hck & Eq)].
+  - split; unfold owners; rewrite Eq; auto.
     + intros j cl' Hn Hp. destruct (callers_step_other c s ch s' j H) as [E | (cl & pc' & Hc & Hs & Hne & Hlk)].
       * rewrite E in Hn. eauto.
       * destruct Hs as [Hs | (Hl & Hs & Hw)]; rewrite Hs in Hn; injection Hn as <-; cbn [cpc set_pc set_pc_id] in Hp.
@@ -146,17 +148,214 @@ Proof.
         -- eexists; split; [exact Hs|]. cbn. auto.
         -- exfalso. eapply I1; [exact Hc|right; exact Hl|]. apply in_map. exact Hin.
   - (* CWrite: a new promise, owned by a caller that had none *)
-    step_inv H; bool_hyps; try congruence.
     assert (Hfresh : ~ In k (map p_k (all_promises s))) by (eapply I1; [exact Hk|right; exact Hpc]).
+    pose proof Hk as Hk0.
+    step_inv H; bool_hyps; try congruence.
     assert (c0 = cl) by congruence. subst c0. assert (hv0 = hv) by congruence. subst hv0.
-    split; cbn [s_callers].
+    split; unfold owners; rewrite Eq; cbn [s_callers].
     + intros j cl' Hn Hp. rewrite map_app, in_app_iff. cbn [map p_k In].
       apply nth_upd_inv in Hn as [(-> & -> & _) | (Hne & Hn)].
       * cbn in Hp. destruct Hp; discriminate.
       * intros [Hin | [Hin | []]]; [eapply I1; eauto | congruence].
     + intros p Hin. apply in_app_iff in Hin as [Hin | [<- | []]].
       * destruct (I2 p Hin) as (cl' & Hn & Hid & Hkk). exists cl'. split; [|auto].
-        rewrite nth_upd_other; [exact Hn|]. intros ->. apply Hfresh. apply in_map. exact Hin.
+        rewrite nth_upd_other; [exact Hn|]. intro Hkk'. apply Hfresh. rewrite <- Hkk'. apply in_map. exact Hin.
       * cbn [p_k p_id p_hv]. eexists; split; [eapply nth_upd_same; eassumption|]. cbn. auto.
     + rewrite map_app. cbn [map p_k]. apply NoDup_app_one; auto.
+Qed.
+
+Lemma invowner_reachable c s : reachable c s -> InvOwner s.
+Proof.
+  intro Hr. enough (InvLock s /\ InvOwner s) by tauto. revert s Hr. apply invariant.
+  - split; [apply invlock_init|apply invowner_init].
+  - intros s0 ch s1 (A & B) Hs. split; [eapply invlock_step; eauto|eapply invowner_step; eauto].
+Qed.
+
+(* ---------- the history of answers against the server's stream ---------- *)
+Definition good (mr : Z) (x : promise * result) (rw : list Z) : Prop :=
+  exists b, snd x = RPacket b /\ frame_for mr (fst x) rw b.
+
+Record InvHist (c : cfg) (s : state) : Prop := {
+  ih_split : exists gh bh gr br post,
+      s_hist s = gh ++ bh /\ s_raw s = gr ++ br /\ Forall2 (good (c_maxresp c)) gh gr /\
+      c_stream c = concat gr ++ post /\ length br = length bh /\
+      (s_dead s = None -> bh = [] /\ post = s_stream s) /\
+      (forall e, s_dead s = Some e -> bh <> [] /\ Forall (fun x => snd x = RErr e) bh);
+  ih_deliv : forall p r, s_recv s = RDeliv p r -> exists h, s_hist s = h ++ [(p, r)];
+  ih_deadpkt : forall p buf, s_recv s = RDeliv p (RPacket buf) -> s_dead s = None }.
+
+Lemma invhist_init c : InvHist c (init c).
+Proof.
+  split; cbn; try discriminate.
+  exists [], [], [], [], (c_stream c). repeat split; auto; try discriminate.
+Qed.
+
+Lemma invhist_step c s ch s' : InvHist c s -> step c s ch = Some s' -> InvHist c s'.
+Proof.
+  intros [I1 I2 I3] H.
+  destruct ch; step_inv H; try (split; cbn [s_hist s_raw s_dead s_stream s_recv]; auto; fail).
+  - (* CRecv *) split; cbn [s_hist s_raw s_dead s_stream s_recv]; auto; discriminate.
+  - (* RDeq *) split; cbn [s_hist s_raw s_dead s_stream s_recv]; auto; discriminate.
+  - (* RServe, dead *)
+    destruct I1 as (gh & bh & gr & br & post & A1 & A2 & A3 & A4 & A5 & A6 & A7).
+    destruct (A7 _ eq_refl) as [B1 B2].
+    split; cbn [s_hist s_raw s_dead s_stream s_recv].
+    + exists gh, (bh ++ [(p, RErr z)]), gr, (br ++ [[]]), post. rewrite A1, A2, <- !app_assoc.
+      repeat split; auto; try discriminate.
+      * rewrite !app_length. cbn. lia.
+      * destruct bh; discriminate.
+      * injection H as <-. apply Forall_app; split; auto.
+    + intros p0 r0 Hq. injection Hq as <- <-. eauto.
+    + intros p0 buf Hq. discriminate.
+  - (* RServe *)
+    destruct I1 as (gh & bh & gr & br & post & A1 & A2 & A3 & A4 & A5 & A6 & A7).
+    destruct (A6 eq_refl) as [-> ->]. destruct br; [|discriminate]. rewrite app_nil_r in A1, A2.
+    split; cbn [s_hist s_raw s_dead s_stream s_recv].
+    + destruct r as [buf|e|].
+      * destruct (serve_packet _ _ _ _ _ _ _ _ E1) as (-> & Hf & Hst).
+        exists (gh ++ [(p, RPacket buf)]), [], (gr ++ [l]), [], l0. rewrite A1, A2, !app_nil_r.
+        repeat split; auto; try discriminate.
+        -- apply Forall2_app; auto. constructor; [|constructor]. exists buf. split; auto.
+        -- rewrite concat_app. cbn. rewrite app_nil_r, <- app_assoc, <- Hst. exact A4.
+      * pose proof (serve_err _ _ _ _ _ _ _ _ E1) as ->.
+        exists gh, [(p, RErr e)], gr, [l], (s_stream s). rewrite A1, A2.
+        repeat split; auto; try discriminate.
+        injection H as <-. constructor; auto.
+      * exfalso. eapply serve_not_none; eauto.
+    + intros p0 r0 Hq. injection Hq as <- <-. eauto.
+    + intros p0 buf Hq. injection Hq as <- ->. now destruct (serve_packet _ _ _ _ _ _ _ _ E1) as (-> & _).
+  - (* RExit *) split; cbn [s_hist s_raw s_dead s_stream s_recv]; auto; discriminate.
+Qed.
+
+Lemma invhist_reachable c s : reachable c s -> InvHist c s.
+Proof. apply invariant; [apply invhist_init | intros; eapply invhist_step; eauto]. Qed.
+
+(* a caller that returned a packet got it from the receiver *)
+Definition InvRes (s : state) : Prop :=
+  forall k cl buf, nth_error (s_callers s) k = Some cl -> cpc cl = PDone (RPacket buf) ->
+                   exists p, p_k p = k /\ In (p, RPacket buf) (s_hist s).
+
+Lemma invres_step c s ch s' : InvHist c s -> InvRes s -> step c s ch = Some s' -> InvRes s'.
+Proof.
+  intros IH IR H. unfold InvRes in *.
+  destruct ch; step_inv H; bool_hyps; cbn [s_callers s_hist]; intros j cl' buf Hn Hp.
+  all: try (upd_inv; cbn [cpc set_pc set_pc_id] in Hp; try discriminate; eauto; fail).
+  - (* CRecv *)
+    upd_inv; [|eauto]. cbn [cpc set_pc] in Hp. injection Hp as ->.
+    destruct (ih_deliv _ _ IH _ _ E0) as (h & Hh). exists p. split; auto. rewrite Hh. apply in_app_iff. right. left. auto.
+  - destruct (IR _ _ _ Hn Hp) as (q & Hq & Hin). exists q. split; auto. apply in_app_iff. auto.
+  - destruct (IR _ _ _ Hn Hp) as (q & Hq & Hin). exists q. split; auto. apply in_app_iff. auto.
+Qed.
+
+Lemma invres_reachable c s : reachable c s -> InvRes s.
+Proof.
+  intro Hr. enough (InvHist c s /\ InvRes s) by tauto. revert s Hr. apply invariant.
+  - split; [apply invhist_init|]. intros k cl buf Hn Hp. cbn in Hn. apply nth_map_mk in Hn as [Hn _]. congruence.
+  - intros s0 ch s1 (A & B) Hs. split; [eapply invhist_step; eauto|eapply invres_step; eauto].
+Qed.
+
+(* ---------- small list facts ---------- *)
+Lemma nth_error_middle {A} (l1 l2 : list A) x : nth_error (l1 ++ x :: l2) (length l1) = Some x.
+Proof. induction l1; cbn; auto. Qed.
+
+Lemma firstn_exact {A} (l1 l2 : list A) : firstn (length l1) (l1 ++ l2) = l1.
+Proof. induction l1; cbn; [now destruct l2|]. now f_equal. Qed.
+
+Lemma good_frames mr g r :
+  Forall2 (good mr) g r -> Forall2 (fun q rw => exists b, frame_for mr q rw b) (map fst g) r.
+Proof. induction 1 as [|x rw g r (b & _ & Hf) _ IH]; cbn; constructor; eauto. Qed.
+
+(* ---------- each call gets its own response ---------- *)
+Theorem own_response c s k buf :
+  reachable c s -> result_of s k = Some (RPacket buf) ->
+  exists i p pre_raws rw post,
+    nth_error (all_promises s) i = Some p /\ p_k p = k /\ call_id s k = Some (p_id p) /\
+    nth_error (resp_ids (s_wire s)) i = Some (p_id p) /\
+    Forall2 (fun q r => exists b, frame_for (c_maxresp c) q r b) (firstn i (all_promises s)) pre_raws /\
+    frame_for (c_maxresp c) p rw buf /\
+    c_stream c = concat pre_raws ++ rw ++ post.
+Proof.
+  intros Hr Hres.
+  pose proof (invres_reachable c s Hr) as IR. pose proof (invhist_reachable c s Hr) as IH.
+  pose proof (invowner_reachable c s Hr) as IO. pose proof (invorder_reachable c s Hr) as IW.
+  unfold result_of in Hres. destruct (nth_error (s_callers s) k) as [cl|] eqn:Hn; [|discriminate].
+  destruct (cpc cl) eqn:Hp; try discriminate. injection Hres as ->.
+  destruct (IR _ _ _ Hn Hp) as (p & Hk & Hin).
+  destruct (ih_split _ _ IH) as (gh & bh & gr & br & post & A1 & A2 & A3 & A4 & A5 & A6 & A7).
+  rewrite A1 in Hin. apply in_app_iff in Hin as [Hin|Hin].
+  2:{ exfalso. destruct (s_dead s) as [e|] eqn:Hd.
+      - destruct (A7 _ eq_refl) as [_ HF]. rewrite Forall_forall in HF. specialize (HF _ Hin). discriminate.
+      - destruct (A6 eq_refl) as [-> _]. contradiction. }
+  apply in_split in Hin as (g1 & g2 & ->).
+  apply Forall2_app_inv_l in A3 as (r1 & r2' & F1 & F2 & ->).
+  inversion F2 as [|x rw g2' r2 Hg F3]; subst. destruct Hg as (b & Hb & Hf). cbn in Hb, Hf. injection Hb as <-.
+  assert (Hall : all_promises s = map fst g1 ++ p :: (map fst g2 ++ map fst bh ++ serving_part (s_recv s) ++ s_fifo s ++ inhand_part (s_inhand s))).
+  { unfold all_promises. rewrite A1, !map_app. cbn. now rewrite <- !app_assoc. }
+  exists (length (map fst g1)), p, r1, rw, (concat r2 ++ post).
+  split; [rewrite Hall; apply nth_error_middle|]. split; [reflexivity|]. split.
+  - destruct (io_id _ IO p) as (cl' & Hn' & Hid & _).
+    { rewrite Hall. apply in_app_iff. right. left. reflexivity. }
+    unfold call_id. rewrite Hn'. exact Hid.
+  - split.
+    + rewrite <- IW, Hall, map_app. cbn [map]. rewrite <- (map_length p_id (map fst g1)). apply nth_error_middle.
+    + split; [rewrite Hall, firstn_exact; now apply good_frames|]. split; [exact Hf|].
+      rewrite A4, concat_app. cbn. now rewrite <- !app_assoc.
+Qed.
+
+Theorem one_promise_per_call c s : reachable c s -> NoDup (map p_k (all_promises s)).
+Proof. intro Hr. exact (io_nodup _ (invowner_reachable c s Hr)). Qed.
+
+(* ---------- a response for another request is a connection fault ---------- *)
+Theorem mismatch_is_fault c s p :
+  reachable c s -> s_recv s = RServing p -> s_dead s = None ->
+  nth_error (resp_ids (s_wire s)) (length (s_hist s)) = Some (p_id p) /\
+  forall h len id s',
+    read_full (header_len (p_hv p)) (s_stream s) (c_term c) = inl h ->
+    decode_header (p_hv p) (c_maxresp c) h = inl (len, id) -> id <> p_id p ->
+    step c s RServe = Some s' ->
+    s_recv s' = RDeliv p (RErr 5) /\ s_dead s' = Some 5.
+Proof.
+  intros Hr Hs Hd. split.
+  - rewrite <- (invorder_reachable c s Hr). unfold all_promises. rewrite Hs. cbn [serving_part].
+    rewrite map_app. cbn [map app]. rewrite <- (map_length fst (s_hist s)), <- (map_length p_id (map fst (s_hist s))).
+    apply nth_error_middle.
+  - intros h len id s' H1 H2 H3 Hstep. destruct (serve_mismatch _ _ _ _ _ _ _ H1 H2 H3) as (st' & raw & Hsv).
+    unfold step in Hstep. rewrite Hs, Hd, Hsv in Hstep. injection Hstep as <-. cbn. auto.
+Qed.
+
+(* ---------- after the first fault ---------- *)
+Lemma dead_step c s ch s' e : s_dead s = Some e -> step c s ch = Some s' -> s_dead s' = Some e.
+Proof. intros Hd H. destruct ch; step_inv H; cbn [s_dead]; auto; congruence. Qed.
+
+Lemma packet_step c s ch s' e k buf :
+  InvHist c s -> s_dead s = Some e -> step c s ch = Some s' ->
+  result_of s' k = Some (RPacket buf) -> result_of s k = Some (RPacket buf).
+Proof.
+  intros IH Hd H Hres. unfold result_of in *.
+  destruct ch; step_inv H; cbn [s_callers] in Hres; auto.
+  all: destruct (Nat.eq_dec k k0) as [->|N]; [|rewrite nth_upd_other in Hres by exact N; exact Hres].
+  all: try (erewrite nth_upd_same in Hres by eassumption; cbn [cpc set_pc set_pc_id] in Hres; discriminate).
+  (* CRecv: the packet would have been in the receiver's hands while dead *)
+  erewrite nth_upd_same in Hres by eassumption. cbn [cpc set_pc] in Hres. injection Hres as ->.
+  pose proof (ih_deadpkt _ _ IH _ _ E0). congruence.
+Qed.
+
+Theorem dead_sticky_safe c s1 e :
+  reachable c s1 -> s_dead s1 = Some e ->
+  (exists good bad, s_hist s1 = good ++ bad /\ bad <> [] /\
+                    Forall (fun x => exists b, snd x = RPacket b) good /\ Forall (fun x => snd x = RErr e) bad) /\
+  forall sched s2, run_from c s1 sched = Some s2 ->
+    s_dead s2 = Some e /\
+    forall k buf, result_of s2 k = Some (RPacket buf) -> result_of s1 k = Some (RPacket buf).
+Proof.
+  intros Hr Hd. split.
+  - destruct (ih_split _ _ (invhist_reachable c s1 Hr)) as (gh & bh & gr & br & post & A1 & A2 & A3 & A4 & A5 & A6 & A7).
+    destruct (A7 _ Hd) as [B1 B2]. exists gh, bh. repeat split; auto.
+    clear -A3. induction A3 as [|x rw g r (b & Hb & _) _ IH]; constructor; eauto.
+  - intros sched. revert s1 Hr Hd. induction sched as [|ch r IH]; intros s1 Hr Hd s2 Hrun; cbn in Hrun.
+    + injection Hrun as <-. auto.
+    + destruct (step c s1 ch) as [s1'|] eqn:Hs; [|discriminate].
+      assert (Hd' := dead_step _ _ _ _ _ Hd Hs).
+      destruct (IH s1' (reachable_step _ _ _ _ Hr Hs) Hd' s2 Hrun) as [C1 C2]. split; [exact C1|].
+      intros k buf Hres. eapply packet_step; eauto using invhist_reachable.
 Qed.
